@@ -7,6 +7,7 @@ import (
 	"os"
 
 	"verifharness/props/c02"
+	"verifharness/props/c05"
 	"verifharness/props/c09"
 )
 
@@ -22,6 +23,8 @@ func main() {
 		out = c02.RunOps(d.Ops)
 	case "C09":
 		out = c09.RunOps(d.Ops)
+	case "C05":
+		out = c05.RunOps(d.Ops)
 	}
 	for i, op := range d.Ops {
 		fmt.Printf("%.150s\n    => %.600s\n", op, out[i])
